@@ -160,7 +160,39 @@ def witness_u2(v, tier):
         w = out['witness']
         return {'found': True, 'witness': w, 'real': out['real'], 'tried': out['tried'],
                 'replay_args': ['u2', 'replay', json.dumps(w)]}
-    return {'found': False, 'tried': (out or {}).get('tried'), 'note': err}
+    out2, err2 = _replay(['u2b', 'find', 'all'] + (['thorough'] if tier == 'thorough' else []))
+    if out2 and out2.get('found'):
+        w = out2['witness']
+        return {'found': True, 'witness': w, 'real': out2['real'], 'tried': out2['tried'],
+                'replay_args': ['u2b', 'replay', json.dumps(w)]}
+    return {'found': False, 'tried': ((out or {}).get('tried') or 0) + ((out2 or {}).get('tried') or 0), 'note': err or err2}
+
+
+def extra_c07_bounded(prop, tier, seed):
+    """Bounded stand-ins (labelled, never counted) for the literal decoders neither verifier reaches:
+    unescape_text (chars() iterators, String building) and hex/base64 decoding (data-encoding tables).
+    Differential against spec twins written from RFC 8610/9682 and RFC 4648 on the REAL parser /
+    decoders over small complete domains."""
+    out, err = _replay(['u2b', 'find', 'all'] + (['thorough'] if tier == 'thorough' else []))
+    if out is None:
+        raise engine.Undecided('replay-failed', err)
+    n = 3 if tier == 'thorough' else 2
+    res = {'violations': [], 'bounded': [
+        {'check': 'text literals: every sequence of <= %d tokens out of 24 (plain chars, simple escapes, \\uXXXX incl. lone and '
+                  'paired surrogates, \\u{...} incl. > 10FFFF) parsed by the real parser: stored value == RFC value, invalid '
+                  'escapes rejected' % n, 'bound': '%d tokens' % n, 'found': out.get('found')},
+        {'check': 'b64 literals: every string of <= %d chars over {A,Q,J,g,+,/,-,_,=} and every sequence of <= 3 four-char '
+                  'blocks + 7 tails through the real base64_decode == RFC 4648 decoder (one alphabet per literal, optional '
+                  'canonical trailing padding, zero pad bits); h literals: every string of <= 4 chars over {0,9,a,f,A,F,g,space}'
+                  % (6 if tier == 'thorough' else 5), 'bound': 'see check', 'cases': out.get('tried'), 'found': out.get('found')}]}
+    if out.get('found'):
+        res['violations'].append({
+            'unit': 'U2b', 'label': 'literal:%s-value-equals-rfc' % out['witness']['kind'], 'fn': 'unescape_text / base64_decode / hex_decode',
+            'message': 'a literal is stored with a value other than the RFC assigns, or an invalid literal is accepted',
+            'clause': [], 'engine': 'replay', 'verifier_output': json.dumps(out),
+            'fixed_witness': {'found': True, 'witness': out['witness'], 'real': out.get('real'),
+                              'replay_args': ['u2b', 'replay', json.dumps(out['witness'])]}})
+    return res
 
 
 def control_names():
@@ -400,11 +432,11 @@ PROPS = {
         'assumptions': ['pest_derive compiles cddl.pest as written (ordered choice)'],
     },
     'C07': {
-        'extra': [kani.part(KANI_U2, 'C07')],
+        'extra': [kani.part(KANI_U2, 'C07'), extra_c07_bounded],
         'witness': witness_u2,
         'engine': 'kx',
         'technique': 'Kani function contracts in place on parse_u64_lit/parse_uint_lit/parse_int_lit (proof_for_contract, callers via stub_verified), spec twin from RFC 8610 Appendix B',
-        'level_text': 'Integer literals only. parse_u64_lit is proved equal to a digit-level RFC 8610 value function (overflow => None) for every spelling up to a stated length per radix (complete in value: every u64 and the first overflowing length; bounded in spelling length, so labelled bounded). parse_uint_lit and parse_int_lit are proved against the CONTRACT of parse_u64_lit (stub_verified) for every magnitude and sign: usize/isize boundaries, -2^63 accepted, -(2^63+1) rejected - complete. Text escapes, byte strings, floats and the call sites are not decided here.',
+        'level_text': 'Integer literals only. parse_u64_lit is proved equal to a digit-level RFC 8610 value function (overflow => None) for every spelling up to a stated length per radix (complete in value: every u64 and the first overflowing length; bounded in spelling length, so labelled bounded). parse_uint_lit and parse_int_lit are proved against the CONTRACT of parse_u64_lit (stub_verified) for every magnitude and sign: usize/isize boundaries, -2^63 accepted, -(2^63+1) rejected - complete. Text escapes and h/b64 byte strings are outside both verifiers (iterator/String code, data-encoding tables): for them only a bounded differential stand-in against RFC spec twins runs on the real parser (labelled bounded, not counted; it found and led to the repair of F4 lone-surrogate escapes and F17 interior base64 padding). Floats and the pest call sites are not decided.',
         'level_note': 'Trusted: Kani/CBMC/cadical; Kani executes the real core::num parsing code (not assumed). Harnesses over symbolic spellings are length-bounded (bounds in evidence) and are reported as bounded, not counted as discharged proof obligations; the two caller proofs are complete. Unverified: unescape_text, clean_prefixed_byte_string, hex/base64 decoding (data-encoding), float parsing (core), the pest call sites.',
         'design_ref': 'DESIGN.md 4 U2',
         'scope': 'integer literal decoders of src/pest_bridge.rs',
